@@ -200,6 +200,18 @@ class FramingDriver:
         self.pos = 0
         self.nfd = 0
         self.ndel = 0
+        # another connection of the same process, already authenticated, receives bytes of its own in between the
+        # reads of this one (a message of 200 bytes that never completes): connections share nothing
+        self.other = StubProto()
+        self.other.authenticator = type('Auth', (StubAuth,), {'nl': 1})
+        self.other._init_rec()
+        self.other.factory = _Fac()
+        self.other.makeConnection(fakes.MemoryTransport())
+        self.other._dbusAuth = None
+        self.other._firstByte = False
+        self.other.setAuthenticationSucceeded()
+        self.other_stream = refwire.msg(4, 77, [('path', '/other'), ('interface', 'o.o'), ('member', 'Never')], 's', ['z' * 200])
+        self.other_pos = 0
 
     def apply(self, name, args):
         if name == 'Read':
@@ -207,6 +219,10 @@ class FramingDriver:
             data = self.inst.stream[self.pos:self.pos + k]
             assert len(data) == k
             self.pos += k
+            if self.other_pos < len(self.other_stream) - 40:
+                step = 1 + (self.pos % 23)
+                self.other.dataReceived(self.other_stream[self.other_pos:self.other_pos + step])
+                self.other_pos += step
             self.p.dataReceived(data)
         elif name == 'FdArrive':
             self.nfd += 1
